@@ -207,6 +207,18 @@ def _stores_into(s, names):
     return False
 
 
+def converter_keeps_index(repo):
+    """W4 (converter): the type converter returns a Series with the caller's index - a freshly built pd.Series(...)
+    without `index=` carries 0..n-1 and is later aligned by label with the other input columns (debug output)"""
+    gt = repo.module("gettsim_typing.py")
+    fd = gt.functions.get("convert_series_to_internal_type")
+    if fd is None:
+        return
+    for c in ast.walk(fd):
+        if isinstance(c, ast.Call) and ast.unparse(c.func) in ("pd.Series", "pandas.Series") and not any(kw.arg == "index" for kw in c.keywords):
+            yield "W4", "convert_series_to_internal_type|Series-without-index", c.lineno, f"`{ast.unparse(c)[:80]}` rebuilds the converted column without the caller's index: it is later combined with the other input columns by index label, so permuted or non-default labels re-sort the inputs against the results"
+
+
 def label_alignment(itf):
     """W4: label-aligning pandas operations on the result path of interface.py"""
     for fname in ("compute_taxes_and_transfers", "_prepare_results", "_create_input_data", "_reorder_columns"):
@@ -467,3 +479,54 @@ def id_value_findings(mod, fd):
         for t in tests:
             if id_expr(t):
                 yield ("W9", ast.unparse(t)[:60], t.lineno, f"`{ast.unparse(t)[:60]}` is an id used as a truth value (in `{ast.unparse(n)[:70]}`): 0 is a valid id and counts as false - the first person / first group of every data set is treated as missing")
+
+
+# ------------------------------------------------------------------ kernels: argument arrays, buffers, neighbours
+def kernel_hygiene(mod, fd, kind):
+    """W10: a whole-column function never stores into one of its argument arrays (`col[mask] = x`, `col += x`):
+    a supplied column reaches it as the caller's (possibly read-only) array, a computed one as a fresh array.
+    W11: a result buffer allocated with `numpy.full(shape, <argument>)` takes its dtype from that argument: values
+    of a column assigned into it are cast to the fill value's type - give the dtype explicitly.
+    W12 (groupings): no comparison of a column with its own neighbours (`a[1:] == a[:-1]`, roll / shift / diff on
+    ids or pointers): who stands next to whom is an accident of the row order.
+    yields (rule, key, lineno, message)"""
+    params = {a.arg for a in fd.args.args}
+    rebound = {t.id for st in walk_own(fd) if isinstance(st, ast.Assign) for t in st.targets if isinstance(t, ast.Name)}
+    for st in walk_own(fd):
+        tg = None
+        if isinstance(st, ast.Assign) and len(st.targets) == 1 and isinstance(st.targets[0], ast.Subscript):
+            tg = st.targets[0]
+        elif isinstance(st, ast.AugAssign):
+            tg = st.target
+        if tg is not None:
+            base = tg.value if isinstance(tg, ast.Subscript) else tg
+            if isinstance(base, ast.Name) and base.id in params and base.id not in rebound:
+                yield ("W10", ast.unparse(st)[:60], st.lineno, f"`{ast.unparse(st)[:70]}` writes into the argument array `{base.id}`: a supplied column arrives as the caller's array (read-only under pandas copy-on-write, or silently modified), a computed one as a fresh array - the two runs differ")
+    fills = {}
+    for st in walk_own(fd):
+        if isinstance(st, ast.Assign) and len(st.targets) == 1 and isinstance(st.targets[0], ast.Name) and isinstance(st.value, ast.Call):
+            f = ast.unparse(st.value.func).split(".")[-1]
+            if f == "full" and len(st.value.args) >= 2 and not any(kw.arg == "dtype" for kw in st.value.keywords):
+                fv = st.value.args[1]
+                if isinstance(fv, ast.Name) and fv.id in params:
+                    fills[st.targets[0].id] = (st, fv.id)
+    for st in walk_own(fd):
+        if isinstance(st, ast.Assign) and len(st.targets) == 1 and isinstance(st.targets[0], ast.Subscript) and isinstance(st.targets[0].value, ast.Name) and st.targets[0].value.id in fills:
+            if any(isinstance(x, ast.Name) and x.id in params and x.id != fills[st.targets[0].value.id][1] for x in ast.walk(st.value)):
+                alloc, fv = fills[st.targets[0].value.id]
+                yield ("W11", ast.unparse(alloc)[:60], alloc.lineno, f"`{ast.unparse(alloc)[:70]}` allocates the result with the dtype of the fill value `{fv}`; `{ast.unparse(st)[:60]}` then casts the column's values to that type (a float column with an integer fall-back is truncated)")
+    if kind == "grouping":
+        for c in walk_own(fd):
+            if isinstance(c, ast.Subscript) and isinstance(c.slice, ast.Slice) and isinstance(c.value, ast.Name) and c.value.id in params and (c.slice.lower is not None or c.slice.upper is not None):
+                yield ("W12", ast.unparse(c)[:60], c.lineno, f"`{ast.unparse(c)[:70]}` is a shifted view of an id / pointer column: combining it with the unshifted columns relates each row to its neighbour - who stands next to whom is an accident of the row order, so the partition depends on it")
+                continue
+            if isinstance(c, ast.Compare) and len(c.ops) == 1:
+                sides = [c.left, c.comparators[0]]
+
+                def shifted(e):
+                    return isinstance(e, ast.Subscript) and isinstance(e.slice, ast.Slice) and (e.slice.lower is not None or e.slice.upper is not None) and any(isinstance(x, ast.Name) and x.id in params for x in ast.walk(e.value))
+
+                if all(shifted(e) for e in sides):
+                    yield ("W12", ast.unparse(c)[:60], c.lineno, f"`{ast.unparse(c)[:70]}` compares rows with their neighbours: whether two members of a group stand next to each other depends on the row order, so does the partition")
+            if isinstance(c, ast.Call) and ast.unparse(c.func).split(".")[-1] in ("roll", "shift", "diff", "ediff1d") and any(isinstance(x, ast.Name) and x.id in params for a in c.args for x in ast.walk(a)):
+                yield ("W12", ast.unparse(c)[:60], c.lineno, f"`{ast.unparse(c)[:70]}` relates each row to its neighbour: adjacency is an accident of the row order, so the partition depends on it")
